@@ -20,6 +20,20 @@ VALUE = "mimium_lang::interpreter::Value"
 FFI = "mimium_lang::runtime::ffi_serde::FfiValue"
 
 
+def _always_err(facts, path, depth=0):
+    """a workspace function every normal return of which is `Err(..)`"""
+    g = facts.fn(path)
+    if g is None or depth > 2:
+        return False
+    sx = SymEx(g, max_paths=32, facts=facts)
+    try:
+        paths = sx.run(0)
+    except PathLimit:
+        return False
+    rets = [p.env.get(0) for p in paths if p.end == "return"]
+    return bool(rets) and all(r is not None and ((r[0] == "agg" and r[1].endswith("Result::Err")) or (r[0] == "call" and _always_err(facts, r[1], depth + 1))) for r in rets)
+
+
 def result_variants(facts, f, enum_self, target_enum):
     """variant of enum_self -> set of ('ok', TargetVariant, payload_exprs) / ('err',) / ('plain', TargetVariant, ...)"""
     cov = cover.coverage(facts, f, enum_self)
@@ -53,6 +67,8 @@ def result_variants(facts, f, enum_self, target_enum):
                 res.add(("ok", r[1].rsplit("::", 1)[1], r[2]))
             elif r[0] == "call" and "from_residual" in r[1]:
                 res.add(("err",))  # `?` propagation of a nested failure
+            elif r[0] == "call" and _always_err(facts, r[1]):
+                res.add(("err",))  # a helper of the workspace that builds the refusal
             else:
                 res.add(("other", show(r)[:80]))
         out[v] = res
